@@ -700,3 +700,79 @@ pub async fn replay() {
     sum.set("poller_fixpoints", fixpoints);
     sum.write(&out_path);
 }
+
+/// C05 at scale: one real poller round (`repair_members`: poll, state transfer, diff, `begin_keyspace_sync` with both halves)
+/// between a node that holds N documents and tombstones and a node that holds nothing (or older versions of some), for
+/// sizes around the poller's batching limits.  Afterwards the two storages must list the same ids, stamps and kinds, and
+/// hold the same bytes.
+pub async fn large_exchange() {
+    let out_path = arg_or("--out", "-");
+    let sizes: Vec<u64> = arg_or("--sizes", "1,2,3,999,1000,1001,4999,50001").split(',').map(|x| x.parse().unwrap()).collect();
+    datacake_eventual_consistency::verif::set_sync_tick(Duration::from_millis(2));
+    let rig = Rig::new(&[1, 2]).await;
+    let (a, b) = (&rig.nodes[&1], &rig.nodes[&2]);
+    let mut sum = Summary::default();
+    let mut docs_total = 0u64;
+    for (si, n) in sizes.iter().enumerate() {
+        let ks = format!("large{n}");
+        let base = 200_000 + si as u64 * 100;
+        let t_put = HLCTimestamp::new(Duration::from_secs(base), 0, 1);
+        let t_old = HLCTimestamp::new(Duration::from_secs(base - 50), 0, 2);
+        let t_del = HLCTimestamp::new(Duration::from_secs(base + 10), 0, 1);
+        verif::set_node_wall(1, Some(Duration::from_secs(base + 20)));
+        verif::set_node_wall(2, Some(Duration::from_secs(base + 20)));
+        let actor_a = a.grp().get_or_create_keyspace(&ks).await;
+        let actor_b = b.grp().get_or_create_keyspace(&ks).await;
+        // the receiving node holds older versions of a few documents
+        let older: Vec<(u64, HLCTimestamp)> = (1..=*n).step_by(97).map(|i| (i, t_old)).collect();
+        let _ = actor_b.send(MultiSet { source: 0, docs: docs_of(&older), ctx: None, _marker: PhantomData::<St> }).await;
+        let all: Vec<(u64, HLCTimestamp)> = (1..=*n).map(|i| (i, t_put)).collect();
+        for chunk in all.chunks(20_000) {
+            let _ = actor_a.send(MultiSet { source: 0, docs: docs_of(chunk), ctx: None, _marker: PhantomData::<St> }).await;
+        }
+        let gone: Vec<(u64, HLCTimestamp)> = (1..=*n).step_by(10).map(|i| (i, t_del)).collect();
+        if gone.len() == 1 {
+            let _ = actor_a.send(Del { source: 0, doc: metas_of(&gone).remove(0), _marker: PhantomData::<St> }).await;
+        } else {
+            let _ = actor_a.send(MultiDel { source: 0, docs: metas_of(&gone), _marker: PhantomData::<St> }).await;
+        }
+        let mut members = BTreeMap::new();
+        members.insert(a.id, a.addr);
+        repair::repair_round(&b.grp(), &b.network, &members).await;
+        // what the two storages hold
+        let mut ma: Vec<(u64, HLCTimestamp, bool)> = a.store.iter_metadata(&ks).await.unwrap().collect();
+        let mut mb: Vec<(u64, HLCTimestamp, bool)> = b.store.iter_metadata(&ks).await.unwrap().collect();
+        ma.sort();
+        mb.sort();
+        docs_total += ma.len() as u64;
+        sum.evaluations += 1;
+        let mut why = vec![];
+        if ma != mb {
+            let missing = ma.iter().filter(|e| !mb.contains(e)).count();
+            let extra = mb.iter().filter(|e| !ma.contains(e)).count();
+            why.push(format!("after one exchange the receiving node lists {} entries, the sending node {}: {missing} of the sender's entries are missing or differ, {extra} entries are not the sender's",
+                             mb.len(), ma.len()));
+        }
+        let mut wrong_bytes = 0u64;
+        for (id, ts, tomb) in ma.iter().filter(|e| e.0 % 7 == 1 || *n < 2000) {
+            if *tomb {
+                continue;
+            }
+            let want = doc_bytes(*id, *ts);
+            match b.store.get(&ks, *id).await.unwrap() {
+                Some(d) if d.data() == want.as_slice() => {},
+                _ => wrong_bytes += 1,
+            }
+        }
+        if wrong_bytes > 0 {
+            why.push(format!("{wrong_bytes} documents are unreadable on the receiving node or carry other bytes"));
+        }
+        if !why.is_empty() {
+            sum.violation(json!({"property": "C05", "size": n, "why": why}));
+        }
+        sum.sample(json!({"size": n, "entries_on_sender": ma.len(), "entries_on_receiver": mb.len()}));
+    }
+    sum.set("sizes", json!(sizes));
+    sum.set("entries", docs_total);
+    sum.write(&out_path);
+}
